@@ -59,7 +59,7 @@ def gen_cases(tier, seed):
         cases.append(dict(kind=kind, d=0 if kind == "ode" else int(rng.integers(1, 3)), E=E, U=U, names=names,
                           eqnames=eqn, per_u=per_u, weights=["scalar", "dict", "default"][int(rng.integers(3))],
                           obs_src=["hand", "multi"][int(rng.integers(2))], B=int(rng.integers(1, 7)),
-                          seed=seed * 100000 + k, cost=2.0, x64=bool(k % 7 != 3), hetero=bool(k % 4 == 2)))
+                          seed=seed * 100000 + k, cost=2.0, x64=bool(k % 7 != 3), hetero=bool(k % 4 == 2), warr=[0, 1, 0, 2][k % 4]))
     # built-in two-equation system (mass conservation + Navier-Stokes) on pointwise and on separable networks
     for k in range(10 if q else 100):
         cases.append(dict(kind="ns_system", net=["pinn", "spinn"][k % 2], weights=["scalar", "dict"][(k // 2) % 2],
@@ -169,6 +169,11 @@ class SystemProblem:
         name_of = {"dyn": "dyn_loss", "ic": "initial_condition", "boundary": "boundary_loss", "norm": "norm_loss",
                    "obs": "observations"}
         lwkw = {name_of[t]: v for t, v in self.Wspec.items()}
+        if self.case.get("warr"):
+            # the accepted spellings of one weight: Python number, 0-d array, (1,) array
+            conv = (lambda v: jnp.asarray([v])) if self.case["warr"] == 1 else (lambda v: jnp.asarray(v))
+            lwkw = {k: ({kk: (conv(vv) if isinstance(vv, float) else vv) for kk, vv in v.items()} if isinstance(v, dict)
+                        else (conv(v) if isinstance(v, float) else v)) for k, v in lwkw.items()}
         has = lambda n, p: p in self.per_u[n]
         extra = {}
         if getattr(self, "derivative_keys_dict", None) is not None:
@@ -437,6 +442,17 @@ def run_case(case, rec):
                       "system loss evaluation crashed: %s" % c, E=E, U=U, names=sp.names, eqnames=sp.eqnames,
                       per_u=sp.per_u, obs_src=case["obs_src"])
         return
+    # a weight given as a (1,) array may come back as a one-element array: read every value as the scalar it holds (an
+    # array with more than one entry is not a loss value)
+    def _scalar(name, v):
+        a = np.asarray(v)
+        if a.size != 1:
+            rec.violation("%s/%s/not-a-scalar" % (sysname, name), "%s has shape %s" % (name, a.shape))
+            return float("nan")
+        return float(a.reshape(()))
+
+    total = _scalar("total", total)
+    terms = {k_: _scalar(k_, v_) for k_, v_ in terms.items()}
     exp = sp.expected()
     if exp["dyn_loss"] > 1e-6:
         rec.nontrivial((kind, case["d"], E, U, tuple(sp.names), tuple(sp.eqnames), case["weights"],
